@@ -599,9 +599,108 @@ func (x *Exec) oblige(st *State, fr *Frame, kind, tag string, in interface{}, id
 	} else if c, ok := in.(*Clause); ok {
 		pos = fmt.Sprintf("contract line %d", c.Line)
 	}
-	o := &Obligation{Kind: kind, Tag: tag, Fn: x.curTopName, Pos: pos, Desc: desc, defs: st.defs, goal: goal}
-	x.obls = append(x.obls, o)
-	x.oblSite[o] = si
+	// a quantified conjunction is proved conjunct by conjunct (A && B is valid iff A and B are): the
+	// queries stay small and each needs only its own instantiations
+	for _, g := range splitGoal(goal) {
+		o := &Obligation{Kind: kind, Tag: tag, Fn: x.curTopName, Pos: pos, Desc: desc, defs: st.defs, goal: g}
+		x.obls = append(x.obls, o)
+		x.oblSite[o] = si
+	}
+}
+
+// splitGoal splits (and A B ..) and (=> P (and A B ..)) into one goal per conjunct when the goal is
+// quantified; anything else is returned unchanged.
+func splitGoal(goal string) []string {
+	if !strings.Contains(goal, "(forall ") && !strings.Contains(goal, "(exists ") {
+		return []string{goal}
+	}
+	args, ok := sexprArgs(goal)
+	if !ok {
+		return []string{goal}
+	}
+	var out []string
+	switch {
+	case args[0] == "and" && len(args) >= 3:
+		for _, a := range args[1:] {
+			out = append(out, splitGoal(a)...)
+		}
+	case args[0] == "=>" && len(args) == 3:
+		parts := splitGoal(args[2])
+		if len(parts) == 1 {
+			return []string{goal}
+		}
+		for _, p := range parts {
+			out = append(out, "(=> "+args[1]+" "+p+")")
+		}
+	default:
+		return []string{goal}
+	}
+	if len(out) > 12 {
+		return []string{goal}
+	}
+	return out
+}
+
+// sexprArgs returns the operator and the top-level arguments of "(op a b ..)".
+func sexprArgs(s string) ([]string, bool) {
+	if len(s) < 2 || s[0] != '(' || s[len(s)-1] != ')' {
+		return nil, false
+	}
+	body := s[1 : len(s)-1]
+	var parts []string
+	depth, start, inBar, inStr := 0, -1, false, false
+	for i := 0; i < len(body); i++ {
+		c := body[i]
+		switch {
+		case inBar:
+			if c == '|' {
+				inBar = false
+			}
+		case inStr:
+			if c == '"' {
+				inStr = false
+			}
+		case c == '|':
+			inBar = true
+			if start < 0 {
+				start = i
+			}
+		case c == '"':
+			inStr = true
+			if start < 0 {
+				start = i
+			}
+		case c == '(':
+			if start < 0 {
+				start = i
+			}
+			depth++
+		case c == ')':
+			depth--
+			if depth < 0 {
+				return nil, false
+			}
+		case c == ' ' || c == '\n' || c == '\t':
+			if depth == 0 && start >= 0 {
+				parts = append(parts, body[start:i])
+				start = -1
+			}
+		default:
+			if start < 0 {
+				start = i
+			}
+		}
+	}
+	if depth != 0 || inBar || inStr {
+		return nil, false
+	}
+	if start >= 0 {
+		parts = append(parts, body[start:])
+	}
+	if len(parts) < 2 {
+		return nil, false
+	}
+	return parts, true
 }
 
 func instrIndex(in ssa.Instruction) int {
